@@ -303,6 +303,19 @@ theorem reset_origin_default (cs cs' : CS) (h : cs.applyOp .resetOrigin = .ok cs
   | error e => rw [hd] at h; simp [Except.map] at h
   | ok o => rw [hd] at h; simp only [Except.map] at h; injection h with h; subst h; exact ⟨rfl, rfl, rfl, rfl⟩
 
+/-- SUB-SELECTION OF TYPED BATCHES (`VoxelCenterArray.__getitem__` and its siblings): selecting rows of a batch of voxel
+centres with an int, an index array or a boolean mask yields the ELEMENT class for an int key and the SAME array class
+otherwise, and the selected rows are still the centres of the selected voxels (they are passed through the constructor
+again, which is idempotent on centres); and selecting commutes with converting: rows selected from the converted batch =
+the selected rows converted — the same voxel centre has the same coordinate whether it is converted alone, in the full
+batch or in a sub-batch. -/
+theorem typed_subselection (cs : CS) (vs : List (List Int)) (key : GetKey) :
+    getItem .ctr (vs.map centerOf) key = ((selectRows vs key).map fun sel => (getItemKind .ctr key, sel.map centerOf)) ∧
+    (getItemKind .ctr (.int 0) = .elem .ctr ∧ getItemKind .ctr (.idx []) = .arr .ctr ∧ getItemKind .ctr (.mask []) = .arr .ctr) ∧
+    ∀ am : AxisMap, selectRows ((vs.map centerOf).map (coordWith am cs)) key =
+      (selectRows (vs.map centerOf) key).map (List.map (coordWith am cs)) :=
+  ⟨getItem_ctr_centres vs key, ⟨rfl, rfl, rfl⟩, fun am => selectRows_map (coordWith am cs) (vs.map centerOf) key⟩
+
 /-! non-vacuity: a 3-D 3×1×5 system with non-default origin; voxel (−2, 0, 7) lies outside. -/
 def exCS : CS := ⟨.d3, [3, 1, 5], [3 / 2, 1 / 4, 10], [1000000, -7 / 3, 1 / 8]⟩
 
@@ -319,5 +332,10 @@ example : checkEqual exCS { exCS with dims := [3, 1 / 4, 10] } false =
 
 example : (exCS.applyOps [.touch, .setOrigin [1, 2, 3], .touch, .resetOrigin, .touch]).toOption.map (·.origin) =
     some [0, 10, 3 / 2] := by decide +kernel
+
+example : getItem .ctr [[1 / 2, 3 / 2], [-1 / 2, 5 / 2], [7 / 2, 1 / 2]] (.mask [true, false, true]) =
+    .ok (.arr .ctr, [[1 / 2, 3 / 2], [7 / 2, 1 / 2]]) ∧
+    getItem .ctr [[1 / 2, 3 / 2], [-1 / 2, 5 / 2]] (.idx [-1, 0, 0]) = .ok (.arr .ctr, [[-1 / 2, 5 / 2], [1 / 2, 3 / 2], [1 / 2, 3 / 2]]) := by
+  decide +kernel
 
 end Darsia.C01
